@@ -294,7 +294,7 @@ func RunC04(env *Env, rep *Report) {
 		cases = append(cases, c04FromCase(base, "mapscripts", names, func() []*Atom { return nil }))
 	}
 	rep.Technique = "symbolic execution of the real compiler (go/ssa) with all names symbolic; label uniqueness / resolution as solver queries over all names, run-off on the control-flow graph of the emitted text"
-	rep.Explanation = "Bounded symbolic verification, not a proof. For every skeleton of the statement-tree family (C01 bounds, user labels in every position incl. after end/return and in unreachable code), the switch family (case lists with labelled bodies and bodies that branch before a label), the hoisting templates of C06 and the mapscripts family, the real code is executed symbolically with all user-chosen names symbolic and constrained only by the property's precondition (user names do not imitate generated names). Asserted on both optimize settings: (i) no two label definitions can be equal for any names (solver query per pair); (ii) every generated jump/case target and every hoisted text/movement label used as an argument is defined; (iii) every label the author wrote is defined exactly once; (iv) in the control-flow graph of the emitted text no instruction that can fall through - reachable or not - runs past the end of its script into another script's entry, data, or the end of the file."
+	rep.Explanation = "Bounded symbolic verification, not a proof. For every skeleton of the statement-tree family (C01 bounds, user labels in every position incl. after end/return and in unreachable code), the switch family (case lists with labelled bodies and bodies that branch before a label), the hoisting templates of C06, the mapscripts family and files mixing script statements with inline map scripts, the real code is executed symbolically with all user-chosen names symbolic and constrained only by the property's precondition (user names do not imitate generated names). Asserted on both optimize settings: (i) no two label definitions can be equal for any names (solver query per pair); (ii) every generated jump/case target and every hoisted text/movement label used as an argument is defined; (iii) every label the author wrote is defined exactly once; (iv) in the control-flow graph of the emitted text no instruction that can fall through - reachable or not - runs past the end of its script into another script's entry, data, or the end of the file."
 	rep.Bounds = map[string]interface{}{"statement_tree_max_nodes": maxNodes, "statement_tree_cases": nflow, "mixed_file_cases": nmixed, "switch_max_length": maxLen, "switch_cases": nsw, "switch_bodies": swBodies, "hoisting_templates": len(c06Templates), "mapscripts_entries": 2, "cases": len(cases)}
 	rep.Outside = []string{"shapes beyond the bounds", "names that imitate generated names (excluded by the property; explored by C20)", "labels referenced by author-written commands (they may live in another file)"}
 	rep.Assumptions = []string{"user-chosen names are generic identifiers that do not imitate generated names (Int-coded atoms with the genericity rule)", "a generated reference is a jump/case operand of the form <script>_<digits> or an argument ending in _Text_<n> / _Movement_<n>"}
